@@ -2,11 +2,12 @@
    ExtrOcamlBasic only; Z / positive / nat / N stay inductive.  No Extract
    Constant of our own. *)
 From Coq Require Import Extraction ExtrOcamlBasic.
-From Verif Require Import Base.GoPrim Model.IoUtil Model.Containers Model.SubnetSet.
+From Verif Require Import Base.GoPrim Model.IoUtil Model.Containers Model.SubnetSet Model.Cache.
 
 Extraction Language OCaml.
 Extraction "model.ml"
   Z.add Z.sub Z.mul Z.div Z.modulo Z.opp Z.eqb Z.ltb Z.leb Z.of_nat Z.to_nat
   lr_run_replay lr_run_stream tw_run_replay
   ring_run ring_new set_run map_range_ok
-  is_locally_served is_special_purpose doc_locally_served doc_special_purpose cex_ls4 cex_ls6 cex_sp4 cex_sp6.
+  is_locally_served is_special_purpose doc_locally_served doc_special_purpose cex_ls4 cex_ls6 cex_sp4 cex_sp6
+  normalize_conf cache_run scripted_cb.
